@@ -35,6 +35,7 @@ struct Lib
   void (*f_clrev)() = nullptr;
   void (*f_getrange)(double *, double *, double *, int *, int *) = nullptr;
   void (*f_call)(int *, int *, int *, int *, int *, int *, int *) = nullptr;
+  void (*f_low)(int *, int *, int *, int *) = nullptr;
   struct Seg { char * addr; size_t len; std::vector<char> copy[2]; };
   std::vector<Seg> segs;
 
@@ -42,6 +43,7 @@ struct Lib
   void set_params(double ebb1, double ebb2);
   void set_nme(const double nme[7]);
   int call(int i2bbs, const std::string & name, int ilevel, int modebb, int istart); // returns ier
+  bool call_low(const std::string & routine, int levelkev); // <Nuclide>low(levelkeV) called directly; false if the reference has no such routine
   Event get_event();
   void clear_event();
   Range get_range();
